@@ -133,6 +133,15 @@ def is_master_queue(name):
     return re.match(r'^q/\d+(\.\d+)*$', name) is not None
 
 
+def is_integration(name):
+    """w/<version>/<source>: an integration branch - not the temporary w/<destination name> of check_conflict."""
+    return name.startswith('w/') and name.count('/') >= 2 and not is_dest(name[2:])
+
+
+# job statuses that are only reached after update_integration_branches ran to its end
+AFTER_UPDATE = ('Queued', 'SuccessMessage', 'BuildNotStarted', 'BuildInProgress', 'BuildFailed', 'ApprovalRequired')
+
+
 def effective_ops(rec, pred):
     """Successful merges that end up in a branch selected by `pred`, with the temporary branches of
     robust_merge (tmp/octopus/<dst>, tmp/normal/<dst>) resolved to the merges made on them."""
